@@ -41,4 +41,5 @@ For each change k = 1,2,3 produce in {out}/{{k}}/ :
   demo_test.go   - a Go test file with build tag `//go:build seeddemo`, package = the package of the directory it is to be copied into, containing one test that PASSES on the clean worktree and FAILS with the change (for concurrency changes the test may need many iterations or explicit goroutine choreography; it must fail reliably, at least 9 runs in 10)
   notes.md       - the kind, what the change is, why it breaks the property (which clause), exactly what is needed for it to manifest, and the line `DEMO: copy into <dir> ; go test -vet=off -count=1 -tags seeddemo -run <TestName> ./<dir>/`
 Procedure per change: make the edit in the worktree; run the test suite; copy the demo in and check it fails; `git diff > patch.diff` (exclude the demo file); `git checkout -- . && git clean -fdq` ; copy the demo in again and check it passes on the clean tree; remove the demo file.  Leave the worktree clean at the end (git status empty).
+Working style: keep every reply and every tool call SHORT (never more than ~150 lines in one tool call; pipe long outputs through tail -20; build files with several small edits).
 Finish with a three-line summary: for each k the file changed, the kind, and the one-sentence condition under which it manifests.""")
